@@ -381,7 +381,7 @@ def overlap(ev):
 
 def stress(out, judge, wd, rng, tot, runs, ops):
     outp = os.path.join(wd, "stress.out.ndjson")
-    core.run_harness(MEMBER, [BIN, "stress", str(rng.randrange(1 << 30)), str(runs), str(ops), "3000"], stdout_path=outp)
+    core.run_harness(MEMBER, [BIN, "stress", str(rng.randrange(1 << 30)), str(runs), str(ops), "60000"], stdout_path=outp)
     res = core.read_ndjson(outp)
     by_n = {2: [], 3: []}
     for i, r in enumerate(res):
